@@ -463,7 +463,12 @@ def wholesale_check(repo, run, rule):
                 if k in done:
                     continue
                 done.add(k)
-                if pre:
+                emptied = any((t in ('self._children', 'len(self._children)', 'self') and not pol) or (t in ('not self._children', 'len(self._children) == 0') and pol) for t, pol in e.facts)
+                wins = any(pol and t.startswith('other.ayns.has_priority_over(self') for t, pol in e.facts)
+                if pre and not (emptied and wins):
+                    run.violation(rule, tr.where(fi, e), 'wholesale replacement: ' + e.callee, 'the older container is replaced wholesale by the deleting node %s: entries the pruning kept (higher priority) are thrown away' % (
+                        'although it is not known to be empty' if not emptied else 'although the deleting node is not known to win'))
+                elif pre:
                     run.ok(rule, tr.where(fi, e), 'wholesale replacement: ' + e.callee, 'other.ayns._require_all_new(path, exceptions=removed) precedes')
                 else:
                     run.violation(rule, tr.where(fi, e), 'wholesale replacement: ' + e.callee, 'the newer subtree replaces the older one without the new-path check')
